@@ -346,6 +346,14 @@ impl GraphQuery for Graph {
     }
 }
 
+/// Return the ID of the single output value of an operator node.
+fn single_output(graph: &Graph, op_node_id: NodeId) -> Option<NodeId> {
+    match graph.get_node(op_node_id)?.as_operator()?.output_ids() {
+        &[Some(output_id)] => Some(output_id),
+        _ => None,
+    }
+}
+
 pub struct ReciprocalFusion {}
 
 impl PatternFusion for ReciprocalFusion {
@@ -1299,7 +1307,7 @@ impl PatternFusion for RepeatInterleaveFusion {
         let axes = Pattern::const_symbol("axes");
         let t1 = Pattern::binary_op("Unsqueeze", x, axes);
         let expand_shape = Pattern::symbol("expand_shape");
-        let expanded = Pattern::binary_op("Expand", t1, expand_shape);
+        let expanded = Pattern::binary_op("Expand", t1, expand_shape).with_name("expand");
         let reshape_shape = Pattern::symbol("reshape_shape");
         Pattern::binary_op("Reshape", expanded, reshape_shape).with_name("reshape")
     }
@@ -1384,8 +1392,83 @@ impl PatternFusion for RepeatInterleaveFusion {
             return Err(FusionError::NoEffect);
         };
 
+        // The subgraph only interleaves copies of each slice along `axis` if
+        // the new axis is inserted directly after the repeated axis, the
+        // `Expand` repeats entries along the new axis only and the `Reshape`
+        // merges the two axes. If the new axis is inserted elsewhere (eg.
+        // before `axis`) the subgraph tiles the input instead.
+        let axes_id = pat_match.node_id("axes").ok_or(FusionError::NoMatch)?;
+        let unsqueeze_axis = match graph.get_vector::<i32>(axes_id) {
+            Some(&[unsqueeze_axis]) if unsqueeze_axis < 0 => {
+                unsqueeze_axis + in_shape.len() as i32 + 1
+            }
+            Some(&[unsqueeze_axis]) => unsqueeze_axis,
+            _ => return Err(FusionError::CheckFailed("unsupported unsqueeze axes")),
+        };
+        if usize::try_from(unsqueeze_axis) != Ok(axis + 1) {
+            return Err(FusionError::CheckFailed(
+                "new axis does not follow repeated axis",
+            ));
+        }
+
+        // If the shape produced by the `Expand` is known, check that only the
+        // new axis is expanded.
+        let mut unsqueezed_shape = in_shape.to_vec();
+        unsqueezed_shape.insert(axis + 1, Dimension::Fixed(1));
+        let mut expected_shape = unsqueezed_shape.clone();
+        expected_shape[axis + 1] = Dimension::Fixed(repeats);
+
+        let expand_id = pat_match.node_id("expand").ok_or(FusionError::NoMatch)?;
+        let expand_out_shape = single_output(graph, expand_id)
+            .and_then(|id| graph.get_node(id))
+            .and_then(|n| n.shape().map(|s| s.to_vec()));
+        let expanded_shape = match (
+            expand_out_shape,
+            pat_match
+                .node_id("expand_shape")
+                .and_then(|id| graph.get_vector::<i32>(id)),
+        ) {
+            (Some(shape), _) => Some(shape),
+            (None, Some(target)) => Some(
+                broadcast_to_constant_shape(&unsqueezed_shape, target)
+                    .ok_or(FusionError::CheckFailed("unknown expanded shape"))?,
+            ),
+            (None, None) => None,
+        };
+        if expanded_shape.is_some_and(|shape| shape != expected_shape) {
+            return Err(FusionError::CheckFailed(
+                "expand does not repeat only the new axis",
+            ));
+        }
+
         Ok(RepeatInterleave { axis, repeats })
     }
+}
+
+/// Compute the result of broadcasting `shape` with the constant shape
+/// `target`, following the rules of the `Expand` operator.
+///
+/// Returns `None` if the result cannot be determined.
+fn broadcast_to_constant_shape(shape: &[Dimension], target: &[i32]) -> Option<Vec<Dimension>> {
+    let out_rank = shape.len().max(target.len());
+    let one = Dimension::Fixed(1);
+    (0..out_rank)
+        .map(|i| {
+            let dim = (i + shape.len())
+                .checked_sub(out_rank)
+                .map_or(&one, |i| &shape[i]);
+            let target_size = (i + target.len())
+                .checked_sub(out_rank)
+                .map_or(1, |i| target[i]);
+            let target_size = usize::try_from(target_size).ok()?;
+            match dim {
+                _ if target_size == 1 => Some(dim.clone()),
+                Dimension::Fixed(1) => Some(Dimension::Fixed(target_size)),
+                Dimension::Fixed(size) if *size == target_size => Some(dim.clone()),
+                _ => None,
+            }
+        })
+        .collect()
 }
 
 /// Fuses Softmax + Where + IsNaN operations.
